@@ -1,6 +1,7 @@
 package sim
 
 import (
+	"context"
 	"fmt"
 	"os"
 	"strconv"
@@ -77,3 +78,11 @@ func drawSched(rt *rapid.T) SchedSpec {
 		MapOrder: rapid.IntRange(0, 2).Draw(rt, "maporder"),
 	}
 }
+
+var t0ctx = context.Background()
+
+// fatalT adapts *testing.T to Failer for deterministic (non-rapid) sub-checks.
+type fatalT struct{ t *testing.T }
+
+func (f *fatalT) Fatalf(format string, args ...interface{}) { f.t.Fatalf(format, args...) }
+func (f *fatalT) Logf(format string, args ...interface{})   { f.t.Logf(format, args...) }
